@@ -15,6 +15,7 @@ type retRec struct {
 	pc   string
 	vals []Val
 	st   *State
+	blk  int // top-level block of the return (-1: unknown)
 }
 
 type loopInfo struct {
@@ -748,7 +749,7 @@ func (f *Frame) runPanicExits(back map[[2]*ssa.BasicBlock]bool) {
 		for i := 0; i < res.Len(); i++ {
 			vals = append(vals, Val{T: ex.S.zero(res.At(i).Type()), Typ: res.At(i).Type(), NF: true})
 		}
-		f.rets = append(f.rets, retRec{pc: f.pc, vals: vals, st: f.st.clone()})
+		f.rets = append(f.rets, retRec{pc: f.pc, vals: vals, st: f.st.clone(), blk: -1})
 	}
 }
 
@@ -798,7 +799,7 @@ func (f *Frame) execBlock(b *ssa.BasicBlock, back map[[2]*ssa.BasicBlock]bool) {
 			for _, r := range x.Results {
 				vals = append(vals, f.val(r))
 			}
-			f.rets = append(f.rets, retRec{pc: f.pc, vals: vals, st: f.st.clone()})
+			f.rets = append(f.rets, retRec{pc: f.pc, vals: vals, st: f.st.clone(), blk: f.ex.curBlk})
 		case *ssa.Panic:
 			f.raise(f.pc, "explicit_panic", fmt.Sprintf("b%d", 0)+panicAnchor(x))
 		default:
